@@ -668,7 +668,13 @@ def run_G(pid, tier, seed):
             G.set_debug(dbg)
             to_real = lambda al: None if al is None else [G.to_real_alias(None, d, a) for a in al]  # noqa: E731
             try:
-                ex = d.executor(root_nodes=to_real(R), exclude_nodes=to_real(X), target_nodes=to_real(T))
+                if R is None and X is None and T is not None and rng.random() < 0.35:
+                    # the same selection asked for through cache_deps_of (the targets and what they depend on): the debug
+                    # rules apply to that kind of executor exactly as to the others
+                    ex = d.executor(cache_deps_of=to_real(T))
+                    stats["cache_deps_of_executors"] = stats.get("cache_deps_of_executors", 0) + 1
+                else:
+                    ex = d.executor(root_nodes=to_real(R), exclude_nodes=to_real(X), target_nodes=to_real(T))
                 real = ("SEL", sorted(pos[x] for x in ex.graph.nodes))
                 real_tab = {pos[x]: ex.graph.compound_priority[x] for x in ex.graph.nodes}
             except ValueError:
